@@ -401,6 +401,7 @@ pub fn bop(r: &mut Rng) -> BOp {
         27 => BOp::Poll(r.below(100) as u32),
         28 => BOp::Closure(r.below(100) as u32),
         29 => BOp::OverAligned { log2: *r.pick(&[5u8, 6, 8, 12]), seed: r.next() as u32 },
+        _ if r.chance(1, 2) => BOp::FloatCmp { a: r.below(6) as u8, b: r.below(6) as u8, same: r.chance(1, 2), slice: r.chance(1, 2) },
         _ => BOp::HasherBox(r.next() as u32),
     }
 }
